@@ -369,6 +369,10 @@ func run(r *lib.Run) {
 		dwg.Add(1)
 		go func(d int) { defer dwg.Done(); directedStaleTableRecord(r, d) }(d)
 	}
+	for d := 0; d < r.Pick(2, 12); d++ {
+		dwg.Add(1)
+		go func(d int) { defer dwg.Done(); directedLegacyAsker(r, d) }(d)
+	}
 	dwg.Wait()
 	r.Extra("exchanges_by_pairing_and_policy", pairSeen)
 	r.Extra("worlds", len(specs))
